@@ -24,21 +24,21 @@ const (
 
 func Gosched() { simrt.Gosched() }
 
-func GOMAXPROCS(n int) int                     { return rr.GOMAXPROCS(n) }
-func NumCPU() int                              { return rr.NumCPU() }
-func NumGoroutine() int                        { return rr.NumGoroutine() }
-func GC()                                      { rr.GC() }
-func KeepAlive(x interface{})                  { rr.KeepAlive(x) }
-func SetFinalizer(obj, finalizer interface{})  { rr.SetFinalizer(obj, finalizer) }
-func Goexit()                                  { rr.Goexit() }
+func GOMAXPROCS(n int) int                    { return rr.GOMAXPROCS(n) }
+func NumCPU() int                             { return rr.NumCPU() }
+func NumGoroutine() int                       { return rr.NumGoroutine() }
+func GC()                                     { rr.GC() }
+func KeepAlive(x interface{})                 { rr.KeepAlive(x) }
+func SetFinalizer(obj, finalizer interface{}) { rr.SetFinalizer(obj, finalizer) }
+func Goexit()                                 { rr.Goexit() }
 func Caller(skip int) (uintptr, string, int, bool) {
 	return rr.Caller(skip + 1)
 }
-func Callers(skip int, pc []uintptr) int      { return rr.Callers(skip+1, pc) }
-func CallersFrames(pc []uintptr) *Frames      { return rr.CallersFrames(pc) }
-func FuncForPC(pc uintptr) *Func              { return rr.FuncForPC(pc) }
-func Stack(buf []byte, all bool) int          { return rr.Stack(buf, all) }
-func ReadMemStats(m *MemStats)                { rr.ReadMemStats(m) }
-func Version() string                         { return rr.Version() }
-func LockOSThread()                           { rr.LockOSThread() }
-func UnlockOSThread()                         { rr.UnlockOSThread() }
+func Callers(skip int, pc []uintptr) int { return rr.Callers(skip+1, pc) }
+func CallersFrames(pc []uintptr) *Frames { return rr.CallersFrames(pc) }
+func FuncForPC(pc uintptr) *Func         { return rr.FuncForPC(pc) }
+func Stack(buf []byte, all bool) int     { return rr.Stack(buf, all) }
+func ReadMemStats(m *MemStats)           { rr.ReadMemStats(m) }
+func Version() string                    { return rr.Version() }
+func LockOSThread()                      { rr.LockOSThread() }
+func UnlockOSThread()                    { rr.UnlockOSThread() }
